@@ -165,7 +165,7 @@ pub fn schedules(bytes: &[u8], skip: bool, hash: bool, two_dev: bool) -> Vec<Sch
 
 pub fn run() {
 	let cx = ctx();
-	cx.note("rule", json!("8 replays (all regimes; gecko, doubled end, no metadata, two without any frame) x read schedules of an environment-owned reader: full reads, fixed chunk sizes 1..16/32/../4096, EVERY two-piece split (one short read at every byte offset), every single short read (1,2,3 bytes) at every read-call index, one interrupted read call (ErrorKind::Interrupted, then the call is repeated) at every read-call index, and (thorough) every pair of short reads; x skip_frames {off,on}; plus 1..64 trailing bytes after the closing brace; plus 2 .. 140,000 bytes of unknown events after Game End inside the raw element; plus hash not requested; plus the debug option set (hash off and on); plus call histories (a hashed read of the file cut at every 8th offset, which gives up part-way, then the whole file on the same thread); plus .slpp carry-through for 3 compressions (the computed hash and five foreign hash strings); plus the same files with a declared raw length of 0. Oracle: hash == \"xxh3:\" + 16 hex digits of the ONE-SHOT xxh3_64 over the bytes through the closing brace (a different code path from the streaming hasher), identical for all schedules and both skip settings. Every case is non-trivial (a distinct schedule)"));
+	cx.note("rule", json!("replays with 1 .. 17 MiB (thorough: 33 MiB) of events ahead of Game End, hash with and without skip_frames; 8 replays (all regimes; gecko, doubled end, no metadata, two without any frame) x read schedules of an environment-owned reader: full reads, fixed chunk sizes 1..16/32/../4096, EVERY two-piece split (one short read at every byte offset), every single short read (1,2,3 bytes) at every read-call index, one interrupted read call (ErrorKind::Interrupted, then the call is repeated) at every read-call index, and (thorough) every pair of short reads; x skip_frames {off,on}; plus 1..64 trailing bytes after the closing brace; plus 2 .. 140,000 bytes of unknown events after Game End inside the raw element; plus hash not requested; plus the debug option set (hash off and on); plus call histories (a hashed read of the file cut at every 8th offset, which gives up part-way, then the whole file on the same thread); plus .slpp carry-through for 3 compressions (the computed hash and five foreign hash strings); plus the same files with a declared raw length of 0. Oracle: hash == \"xxh3:\" + 16 hex digits of the ONE-SHOT xxh3_64 over the bytes through the closing brace (a different code path from the streaming hasher), identical for all schedules and both skip settings. Every case is non-trivial (a distinct schedule)"));
 	cx.note("exhaustive", json!(true));
 	cx.note("assumptions", json!(["xxhash-rust's one-shot xxh3_64 is the reference (trusted base)", "short reads hand out at least one byte (a zero-length read means EOF)"]));
 	let mut jobs: Vec<(Arc<Vec<u8>>, String, P)> = vec![];
@@ -256,6 +256,36 @@ pub fn run() {
 					let mut p = P { skip, hash: true, class: "long-tail", ..Default::default() };
 					set_sched(&mut p, &s);
 					jobs.push((bytes.clone(), format!("v{}.{} with {} bytes of unknown events after Game End", v.0, v.1, t), p));
+				}
+			}
+		}
+	}
+	// megabytes of events ahead of Game End (what skip_frames jumps over, and what a full read walks through): sizes
+	// just past 1, 4, 8 and 16 MiB and 20 MiB, so that a jump or copy done in pieces of any power-of-two size up to
+	// 16 MiB has a short last piece; hash with and without skip_frames
+	{
+		let a = base_replay((3, 16), vec![pc(0, false), pc(1, false)], 2);
+		let doc = record(&a).doc;
+		let targets: Vec<usize> = if cx.quick() { vec![(1 << 20) + 3, (8 << 20) + 3, (17 << 20) + 4099] } else { vec![(1 << 20) + 3, (4 << 20) + 3, (8 << 20) + 3, (16 << 20) + 3, (20 << 20) + 12345, (33 << 20) + 1] };
+		for t in targets {
+			let mut d2 = doc.clone();
+			d2.table.push((0x70, 65_535));
+			d2.table.push((0x71, 4_000));
+			let at = d2.events.len() - 1; // ahead of the one Game End
+			let mut left = t;
+			let mut n = 0usize;
+			while left > 0 {
+				let (code, size) = if left >= 65_536 { (0x70u8, 65_535usize) } else { (0x71, 4_000) };
+				d2.events.insert(at, Ev { code, payload: (0..size).map(|i| fill_byte(Fill::B, n + 1, i)).collect(), tag: Tag::Unknown });
+				left = left.saturating_sub(size + 1);
+				n += 1;
+			}
+			let bytes = Arc::new(d2.assemble());
+			for skip in [false, true] {
+				for sc in [Sched::Full, Sched::Chunk(4096)] {
+					let mut p = P { skip, hash: true, class: "megabytes", ..Default::default() };
+					set_sched(&mut p, &sc);
+					jobs.push((bytes.clone(), format!("v3.16 with about {} bytes of unknown events ahead of Game End", t), p));
 				}
 			}
 		}
